@@ -41,6 +41,10 @@ where
 {
     fn work(&mut self) -> Result<BlockRet> {
         let mut o = self.dst.write_buf()?;
+        if o.is_empty() {
+            // A zero-length read returns 0, which is not end of stream.
+            return Ok(BlockRet::WaitForStream(&self.dst, 1));
+        }
         let size = T::size();
         let mut buffer = vec![0; o.len()];
         // TODO: this read blocks.
